@@ -27,6 +27,22 @@ type C09Plan struct {
 	VClass    int     `json:"vclass"`
 	Ops       []C09Op `json:"ops"`
 	SyncSeed  uint64  `json:"sync_seed"`
+	// Disturb: a second encoder of the same type lives in the process, on a
+	// writer of its own that fails at some write, and is used (also after its
+	// failure) in between the calls of the encoder under observation. The
+	// property is stated per encoder: what another encoder goes through must
+	// not show in this one's output.
+	Disturb *C09Disturb `json:"disturb,omitempty"`
+}
+
+type C09Disturb struct {
+	First     bool   `json:"first,omitempty"` // created before the observed encoder
+	FailAt    int    `json:"fail_at"`         // write index at which its writer fails (-1: never)
+	Kind      string `json:"kind"`            // err | short | fullerr
+	BlockSize int    `json:"block_size"`
+	// Before[i mod len]: calls made on it before the observed encoder's i-th
+	// call: 0 none, 1 Encode, 2 Flush, 3 Encode then Flush
+	Before []int `json:"before"`
 }
 
 type c09Prop struct{}
@@ -141,6 +157,13 @@ func (c09Prop) Generate(seed uint64, idx int, tier string) *Plan {
 		}
 	default:
 		pl.BlockSize = r.PickInt([]int{3, 10, 64, 500, 5000})
+	}
+	if r.P(1, 6) {
+		dz := &C09Disturb{First: r.P(1, 2), FailAt: r.Range(-1, 10), Kind: r.Pick([]string{"err", "err", "short", "fullerr"}), BlockSize: r.PickInt([]int{0, 1, 10, 64, pl.BlockSize, 1 << 20})}
+		for i := r.Range(1, 8); i > 0; i-- {
+			dz.Before = append(dz.Before, r.PickInt([]int{0, 1, 1, 2, 3}))
+		}
+		pl.Disturb = dz
 	}
 	return &Plan{Prop: "C09", Seed: seed, Idx: idx, Tier: tier, C09: pl}
 }
@@ -283,10 +306,53 @@ func (c09Prop) Execute(p *Plan, run *Run) any {
 		return f(), nil, ""
 	}
 
+	var dist EncHandle
+	var dw *DiskWriter
+	var dvals []reflect.Value
+	dvi := 0
+	mkDisturber := func() {
+		dz := pl.Disturb
+		dw = &DiskWriter{}
+		if dz.FailAt >= 0 {
+			dw.Fault = &WFault{Kind: dz.Kind, K: dz.FailAt, Short: 1}
+		}
+		dvals = GenValues(d.Type, 32, pl.VSeed^0xd157, 1)
+		lib(func() (err error) {
+			dist, err = d.NewEnc(dw, avro.Compression(pl.Codec), dz.BlockSize)
+			return err
+		})
+	}
+	disturb := func(opi int) {
+		dz := pl.Disturb
+		if dz == nil || dist == nil || len(dz.Before) == 0 {
+			return
+		}
+		k := dz.Before[opi%len(dz.Before)]
+		if k&1 != 0 {
+			v := dvals[dvi%len(dvals)]
+			dvi++
+			// errors (and whatever else the failed encoder does) are its own affair
+			lib(func() error { return dist.Encode(v) })
+			run.Faults.Inc("disturber-encode")
+		}
+		if k&2 != 0 {
+			lib(dist.Flush)
+			run.Faults.Inc("disturber-flush")
+		}
+		if dw.Fired {
+			run.Probes.Inc("disturber-used-after-its-write-failed")
+		}
+	}
+	if pl.Disturb != nil && pl.Disturb.First {
+		mkDisturber()
+	}
 	err, pan, site := lib(func() (err error) {
 		e, err = d.NewEnc(w, avro.Compression(pl.Codec), pl.BlockSize)
 		return err
 	})
+	if pl.Disturb != nil && !pl.Disturb.First {
+		mkDisturber()
+	}
 	run.Evals++
 	if pan != nil || err != nil {
 		run.Probes.Inc("skipped:encoder-construction-failed")
@@ -321,6 +387,7 @@ func (c09Prop) Execute(p *Plan, run *Run) any {
 
 	vi := 0
 	for opi, op := range pl.Ops {
+		disturb(opi)
 		before := len(w.Buf)
 		tick()
 		pendBefore := len(allEnc) - inBlocks
@@ -449,6 +516,15 @@ func (c09Prop) Shrink(p *Plan) []*Plan {
 		if op.Pad > 0 {
 			i := i
 			mut(func(q *C09Plan) { q.Ops[i].Pad = 0 })
+		}
+	}
+	if pl.Disturb != nil {
+		mut(func(q *C09Plan) { q.Disturb = nil })
+		if pl.Disturb.FailAt >= 0 {
+			mut(func(q *C09Plan) { q.Disturb.FailAt = -1 })
+		}
+		if len(pl.Disturb.Before) > 1 {
+			mut(func(q *C09Plan) { q.Disturb.Before = q.Disturb.Before[:1] })
 		}
 	}
 	if pl.Codec != "null" {
